@@ -8,6 +8,8 @@ R4 period of the absolute parser follows the finest part present
 import ast
 
 from ..core import guards as G
+from ..core.cfg import CFG
+from ..core.ctx import conjuncts
 from ..core.index import iter_own_nodes, iter_own_stmts
 from ..core.repo import AnalysisError
 from . import pipeline as P
@@ -40,6 +42,7 @@ def run(ctx, chk):
     r5(ctx, chk, "C08.R5")
     r6(ctx, chk, "C08.R6")
     r7(ctx, chk, "C08.R7")
+    token_conservation_rule(ctx, chk, "C08.R8")
 
 
 def r7(ctx, chk, rule):
@@ -400,3 +403,96 @@ def r4(ctx, chk):
     ok = isinstance(first, ast.If) and "RETURN_TIME_AS_PERIOD" in ast.unparse(first.test) and "'time'" in ast.unparse(first)
     chk.ob(rule, "_get_period: 'time' only when RETURN_TIME_AS_PERIOD and a clock time is present", ok, "",
            key={"function": f.key, "construct": "time period"}, file=f.file, function=f.qual, line=f.node.lineno)
+
+
+
+def token_conservation_rule(ctx, chk, rule):
+    """the absolute parser assigns each numeric token to one date part; when a later token claims a part that is taken and the earlier
+    token cannot be re-read under the same directive, the EARLIER token is set aside (unset_tokens) and handed to a part that is still
+    empty once all tokens are seen ('17 March 2019' under YMD: 17 is first taken as the year, 2019 displaces it, 17 becomes the day).
+    The token set aside must be the displaced one - read back from `_token_<component>` of the very component being re-assigned -
+    and the reader must take the tuple apart in the writer's order."""
+    cls = ctx.ix.cls("dateparser.parser:_parser")
+    funcs = [f for f in ctx.ix.funcs.values() if f.key.startswith(cls.key + ".")]
+    writes = []
+    for f in funcs:
+        for c in iter_own_nodes(f.node):
+            if isinstance(c, ast.Call) and isinstance(c.func, ast.Attribute) and c.func.attr in ("append", "insert", "extend") \
+                    and ast.unparse(c.func.value) == "self.unset_tokens":
+                writes.append((f, c))
+    chk.floor(rule + ".writes", len(writes), 1, "places where a token is set aside")
+    width = None
+    for f, c in writes:
+        t = c.args[-1] if c.args else None
+        key = {"function": f.key, "construct": "token set aside"}
+        if not (c.func.attr == "append" and isinstance(t, ast.Tuple) and len(t.elts) == 3 and all(isinstance(e, ast.Name) for e in t.elts)):
+            raise AnalysisError(rule, "%s line %d: unset_tokens written in an unknown form" % (f.qual, c.lineno))
+        width = 3
+        tok, typ, comp = (e.id for e in t.elts)
+        g = CFG(f.node)
+        at = g.node_of_expr(f.node, c)
+        # tok and typ come from one unpacking of getattr(self, '_token_%s' % comp)
+        ok_src = False
+        why = ""
+        # (the entry "definition" also reaches the handler along the exception edge of the unpacking itself: an unbound name, not a token)
+        params = set(f.params())
+        rd_t = g.reaching_defs(tok).get(at, set()) - ({g.entry.id} if tok not in params else set())
+        rd_y = g.reaching_defs(typ).get(at, set()) - ({g.entry.id} if typ not in params else set())
+        if rd_t and rd_t == rd_y and g.entry.id not in rd_t:
+            ok_src = True
+            for d in rd_t:
+                st = g.nodes[d].stmt
+                v = getattr(st, "value", None)
+                tg = st.targets[0] if isinstance(st, ast.Assign) and len(st.targets) == 1 else None
+                good = isinstance(tg, ast.Tuple) and [ast.unparse(e) for e in tg.elts] == [tok, typ] and isinstance(v, ast.Call) \
+                    and ast.unparse(v.func) == "getattr" and len(v.args) >= 2 and ast.unparse(v.args[0]) == "self" \
+                    and isinstance(v.args[1], ast.BinOp) and isinstance(v.args[1].op, ast.Mod) and isinstance(v.args[1].left, ast.Constant) \
+                    and v.args[1].left.value == "_token_%s" and ast.unparse(v.args[1].right) == comp
+                if not good:
+                    ok_src = False
+                    why = "bound by `%s`" % " ".join(ast.unparse(st).split())[:70]
+        else:
+            why = "`%s` / `%s` are %s" % (tok, typ, "parameters of the function (the token being placed now)" if g.entry.id in (rd_t | rd_y) else "bound by different statements")
+        chk.ob(rule, "%s line %d: the token set aside is the one read back from _token_<%s>" % (f.qual, c.lineno, comp), ok_src,
+               "the tuple put on unset_tokens is not the displaced token: %s; the token that keeps the part is later ALSO given to an empty part "
+               "(e.g. day=2019) and the date is lost" % why, key=key, file=f.file, function=f.qual, line=c.lineno,
+               text=" ".join(ast.unparse(c).split())[:100])
+        # the part is then given to a different token in the same block
+        blk = _block_of(f.node, c)
+        placed = [x for st in blk for x in ast.walk(st) if isinstance(x, ast.Call) and ast.unparse(x.func) == "set_and_return"]
+        ok_new = bool(placed) and all(x.args and isinstance(x.args[0], ast.Name) and x.args[0].id != tok and len(x.args) > 2
+                                      and ast.unparse(x.args[2]) == comp for x in placed)
+        chk.ob(rule, "%s line %d: the part is then given to the other token" % (f.qual, c.lineno), ok_new,
+               "after setting `%s` aside the same block does not place a different token into `%s`" % (tok, comp),
+               key={"function": f.key, "construct": "displacing token placed"}, file=f.file, function=f.qual, line=c.lineno)
+    # reader
+    reads = []
+    for f in funcs:
+        for lp in iter_own_nodes(f.node):
+            if isinstance(lp, ast.For) and ast.unparse(lp.iter) == "self.unset_tokens":
+                reads.append((f, lp))
+    chk.floor(rule + ".reads", len(reads), 1, "loops that hand set-aside tokens to empty parts")
+    for f, lp in reads:
+        tg = lp.target
+        names = [ast.unparse(e) for e in tg.elts] if isinstance(tg, ast.Tuple) else []
+        ok = len(names) == (width or 3)
+        ints = [x for x in ast.walk(lp) if isinstance(x, ast.Call) and ast.unparse(x.func) == "int"]
+        ok = ok and bool(ints) and all(ast.unparse(x.args[0]) == names[0] for x in ints)
+        guard = [n for n in ast.walk(lp) if isinstance(n, ast.If)]
+        ok_g = bool(guard) and all(any("".join(ast.unparse(a).split()) == names[1] + "==0" and p_ for a, p_ in conjuncts(gd.test, True)) for gd in guard[:1]) if len(names) > 1 else False
+        chk.ob(rule, "%s line %d: the reader unpacks (token, type, component) in the writer's order and converts only numeric tokens" % (f.qual, lp.lineno),
+               ok and ok_g, "target %s, int() of %s, guard %s" % (names, [ast.unparse(x.args[0]) for x in ints], [ast.unparse(gd.test) for gd in guard[:1]]),
+               key={"function": f.key, "construct": "set-aside reader"}, file=f.file, function=f.qual, line=lp.lineno)
+
+
+def _block_of(fn, node):
+    """innermost statement list containing the statement of `node`"""
+    best = []
+    for parent in ast.walk(fn):
+        for field in ("body", "orelse", "finalbody", "handlers"):
+            blk = getattr(parent, field, None)
+            if isinstance(blk, list) and blk and isinstance(blk[0], ast.stmt):
+                for st in blk:
+                    if not isinstance(st, (ast.If, ast.For, ast.While, ast.Try, ast.With, ast.FunctionDef)) and any(x is node for x in ast.walk(st)):
+                        best = blk
+    return best
